@@ -270,16 +270,21 @@ CLAIMED = {
         "technique": "Coq proof (segment handlers vs declarative spec) + reference-semantics judge + differential correspondence",
     },
     "C09": {
-        "text": ("Purity half only.  Theorems C09_required_pure_partial / C09_exists_pure_partial (Coq, no axioms): for "
-                 "every document and every path without a subtraction collector (collectors with + and & included) "
-                 "no stream of a required query or of exists() ends in a write to the document; "
-                 "C09_subtraction_refuted: (h)-(h.a) deletes h.a from the loaded document (known finding F16).  The "
-                 "model is a pure function of the document with the single writing statement of the read path "
-                 "explicit; a deep snapshot of the real document around every query of the run checks that nothing "
-                 "else writes.  The creation half is another module's."),
-        "design_ref": "DESIGN.md section 4 (C09), docs/C09.md",
-        "note": NOTE_COMMON,
-        "technique": "Coq proof (no-mutation invariant over the evaluator model) + snapshot differential correspondence",
+        "text": ("Two parts, both run by ./check C09.  Purity (Properties/C09.v, evaluator model Eval.v): for every "
+                 "document and every path without a subtraction collector (collectors with + and & included, at any "
+                 "nesting) no stream of a required query or of exists() ends in a write to the document "
+                 "(C09_required_pure_partial / C09_exists_pure_partial); C09_subtraction_refuted: (h)-(h.a) deletes "
+                 "h.a from the loaded document (listed finding F16).  Creation (Properties/C09b.v, models Create.v / "
+                 "Mutate.v): for all well-formed documents and all straight key/index paths with an existing prefix "
+                 "and a missing tail of any lengths, every node that existed before keeps its place, info and value "
+                 "(C09_create_frame, no guard), the path resolves in the new document to the supplied value and "
+                 "sequences are padded exactly to the requested index (C09_create_resolves_partial / "
+                 "C09_create_pads_document_partial; guard = listed findings F10b null in the prefix, F25 tail below "
+                 "a set; _refuted witnesses).  Tie: a deep snapshot (structure + identities + anchors) of the real "
+                 "document around every query; creation compared node by node with object identities."),
+        "design_ref": "DESIGN.md section 4 (C09), docs/C09.md, docs/C09b.md",
+        "note": NOTE_COMMON + "  The purity guard is syntactic (no subtraction collector anywhere); optional queries that create nodes are F16b / the creation half.",
+        "technique": "Coq proof (no-mutation stream invariant; embedding/frame lemma for creation) + snapshot differential correspondence",
     },
     "C02": {
         "text": ("Theorems (Coq, no axioms) for the key-on-hash and wildcard handlers: parent[parentref] is the node "
